@@ -39,9 +39,17 @@ def replay_corr(chk, st, cplx):
     rawyx = np.array(M.cq_seq(out['rawyx']))
     lens = 'equal' if (auto or len(st['x']) == len(st['y'])) else ('x-shorter' if len(st['x']) < len(st['y']) else 'y-shorter')
     kinds = ['ndarray'] if cplx else ['list', 'ndarray']
+    # mixed datatypes: a real-valued member of a complex pair is also passed with a real dtype
+    xreal = all(M.cq_is_real(v) for v in st['x'])
+    yreal = (not auto) and all(M.cq_is_real(v) for v in st['y'])
+    if cplx and not auto:
+        if xreal and not yreal:
+            kinds.append('x-real-dtype')
+        if yreal and not xreal:
+            kinds.append('y-real-dtype')
     for kind in kinds:
-        x = seq_in(st['x'], cplx, kind)
-        y = None if auto else seq_in(st['y'], cplx, kind)
+        x = seq_in(st['x'], cplx and kind != 'x-real-dtype', kind if kind in ('list', 'ndarray') else 'ndarray')
+        y = None if auto else seq_in(st['y'], cplx and kind != 'y-real-dtype', kind if kind in ('list', 'ndarray') else 'ndarray')
         for norm, exp in expect.items():
             for L in sorted({0, N - 1, (N - 1) // 2}):
                 case = {'fn': 'CORRELATION', 'x': x, 'y': y, 'maxlags': L, 'norm': norm, 'expect': exp[:L + 1]}
@@ -55,14 +63,14 @@ def replay_corr(chk, st, cplx):
                     continue
                 bad = cmp_vec(res, exp[:L + 1], name='r')
                 if bad:
-                    chk.violation('C09:CORRELATION:%s:%s:norm=%s' % (mode, lens, norm),
+                    chk.violation('C09:CORRELATION:%s:%s:norm=%s%s' % (mode, lens, norm, ':' + kind if kind.endswith('dtype') else ''),
                                   'CORRELATION(x=%s, y=%s, maxlags=%d, norm=%s) = %s, definition gives %s'
                                   % (np.asarray(x).tolist(), None if y is None else np.asarray(y).tolist(), L, norm,
                                      np.asarray(res).tolist(), exp[:L + 1].tolist()), dict(case, observed=res))
                 if not cplx and ok and np.iscomplexobj(res):
                     chk.violation('C09:CORRELATION:real-gives-complex', 'real input gives a complex correlation', case)
         # two-sided variant (equal lengths only: xcorr refuses the others)
-        if lens == 'equal' and kind == 'ndarray':
+        if lens == 'equal' and kind != 'list':
             yy = x if y is None else y
             for norm, exp in expect.items():
                 if norm == 'coeff' and not auto:
